@@ -47,6 +47,10 @@ type Contract struct {
 	Covers   []*Clause
 	Opaque   bool // body not verified, not trusted either: listed as unverified
 	Replay   *replaySpec
+	Uses     []*Clause // axiom instances assumed at entry
+	PostUses []*Clause // axiom instances assumed at every return
+	LoopUse  map[int][]*Clause
+	Allocs   []*Clause // allocation-size bounds (C13): expression over n (element count) and esize
 }
 
 type ContractSet struct {
@@ -58,13 +62,25 @@ type ContractSet struct {
 	Ghost map[string]string
 	// spec prelude files
 	Spec []string
+	// macros: name -> (params, body)
+	Macros map[string]*Macro
+	// package-level variables that are never reassigned after init and hold
+	// non-nil, pairwise distinct values (sentinel errors)
+	ConstGlobals map[string]bool
+}
+
+type Macro struct {
+	Params []string
+	Body   string
+	Pkg    string
+	Kind   string // define | axiom (definitional unfolding, assumed) | lemma (proved separately under /verif/lemmas)
 }
 
 func newContractSet() *ContractSet {
-	return &ContractSet{ByFunc: map[string]*Contract{}, Field: map[string]*Contract{}, Ghost: map[string]string{}}
+	return &ContractSet{ByFunc: map[string]*Contract{}, Field: map[string]*Contract{}, Ghost: map[string]string{}, Macros: map[string]*Macro{}, ConstGlobals: map[string]bool{}}
 }
 
-var reKind = regexp.MustCompile(`^(requires|ensures|modifies|decreases|invariant|assume|let|cover)(\[[A-Za-z0-9, ]+\])?(\([A-Za-z0-9_.\-]+\))?\s+(.*)$`)
+var reKind = regexp.MustCompile(`^(requires|ensures|modifies|decreases|invariant|assume|let|cover|alloc|use|postuse)(\[[A-Za-z0-9, ]+\])?(\([A-Za-z0-9_.\-]+\))?\s+(.*)$`)
 var reLoop = regexp.MustCompile(`^loop\s+(\d+)\s*:\s*(.*)$`)
 
 // qualify turns a short function name used in a contract file into the ssa
@@ -99,6 +115,7 @@ func (cs *ContractSet) ParseFile(path string, pkg string, external bool) error {
 	sc.Buffer(make([]byte, 1<<20), 1<<20)
 	var cur *Contract
 	var last *Clause
+	var lastMacro *Macro
 	ln := 0
 	for sc.Scan() {
 		ln++
@@ -131,18 +148,20 @@ func (cs *ContractSet) ParseFile(path string, pkg string, external bool) error {
 				return fmt.Errorf("%s:%d: duplicate contract for %s", path, ln, full)
 			}
 			cur = &Contract{Func: full, Short: short, Pkg: pkg, File: path, Line: ln, External: external,
-				LoopInv: map[int][]*Clause{}, LoopDec: map[int][]*Clause{}, LoopMod: map[int][]*Clause{}}
+				LoopInv: map[int][]*Clause{}, LoopDec: map[int][]*Clause{}, LoopMod: map[int][]*Clause{}, LoopUse: map[int][]*Clause{}}
 			cs.ByFunc[full] = cur
 			cs.Order = append(cs.Order, cur)
 			last = nil
+			lastMacro = nil
 			continue
 		case strings.HasPrefix(line, "fieldcontract "):
 			short := strings.TrimSpace(strings.TrimPrefix(line, "fieldcontract "))
 			full := pkg + "." + short
 			cur = &Contract{Func: full, Short: short, Pkg: pkg, File: path, Line: ln, External: external,
-				LoopInv: map[int][]*Clause{}, LoopDec: map[int][]*Clause{}, LoopMod: map[int][]*Clause{}}
+				LoopInv: map[int][]*Clause{}, LoopDec: map[int][]*Clause{}, LoopMod: map[int][]*Clause{}, LoopUse: map[int][]*Clause{}}
 			cs.Field[full] = cur
 			last = nil
+			lastMacro = nil
 			continue
 		case strings.HasPrefix(line, "ghost "):
 			// ghost <name> <sort...>
@@ -154,10 +173,47 @@ func (cs *ContractSet) ParseFile(path string, pkg string, external bool) error {
 			cs.Ghost[rest[:i]] = strings.TrimSpace(rest[i:])
 			continue
 		case strings.HasPrefix(line, "spec "):
-			cs.Spec = append(cs.Spec, strings.TrimSpace(strings.TrimPrefix(line, "spec ")))
+			sp := strings.TrimSpace(strings.TrimPrefix(line, "spec "))
+			have := false
+			for _, x := range cs.Spec {
+				if x == sp {
+					have = true
+				}
+			}
+			if !have {
+				cs.Spec = append(cs.Spec, sp)
+			}
+			continue
+		case strings.HasPrefix(line, "constglobal "):
+			cs.ConstGlobals[strings.TrimSpace(strings.TrimPrefix(line, "constglobal "))] = true
+			continue
+		case strings.HasPrefix(line, "define "), strings.HasPrefix(line, "axiom "), strings.HasPrefix(line, "lemma "):
+			// define name(p1, p2) = body ; axiom/lemma: usable in `use` clauses
+			kind := strings.Fields(line)[0]
+			rest := strings.TrimSpace(strings.TrimPrefix(line, kind+" "))
+			i := strings.Index(rest, "(")
+			j := strings.Index(rest, ")")
+			e := strings.Index(rest, "=")
+			if i < 0 || j < i || e < j {
+				return fmt.Errorf("%s:%d: bad define", path, ln)
+			}
+			m := &Macro{Body: strings.TrimSpace(rest[e+1:]), Pkg: pkg, Kind: kind}
+			for _, p := range strings.Split(rest[i+1:j], ",") {
+				if p = strings.TrimSpace(p); p != "" {
+					m.Params = append(m.Params, p)
+				}
+			}
+			cs.Macros[strings.TrimSpace(rest[:i])] = m
+			cur = nil
+			lastMacro = m
+			last = nil
 			continue
 		}
 		if cur == nil {
+			if lastMacro != nil {
+				lastMacro.Body += " " + line
+				continue
+			}
 			return fmt.Errorf("%s:%d: clause outside contract: %s", path, ln, line)
 		}
 		loop := 0
@@ -232,6 +288,14 @@ func (cs *ContractSet) ParseFile(path string, pkg string, external bool) error {
 				cur.Lets = append(cur.Lets, cl)
 			case cl.Kind == "cover":
 				cur.Covers = append(cur.Covers, cl)
+			case cl.Kind == "alloc":
+				cur.Allocs = append(cur.Allocs, cl)
+			case loop > 0 && cl.Kind == "use":
+				cur.LoopUse[loop] = append(cur.LoopUse[loop], cl)
+			case cl.Kind == "use":
+				cur.Uses = append(cur.Uses, cl)
+			case cl.Kind == "postuse":
+				cur.PostUses = append(cur.PostUses, cl)
 			default:
 				return fmt.Errorf("%s:%d: misplaced clause %s", path, ln, cl.Kind)
 			}
@@ -266,4 +330,10 @@ func hasProp(ps []string, p string) bool {
 		}
 	}
 	return false
+}
+
+
+// onlyInline: the contract only marks the function as an inlinable leaf.
+func (c *Contract) onlyInline() bool {
+	return c.Inline && len(c.Requires) == 0 && len(c.Ensures) == 0 && len(c.Modifies) == 0
 }
